@@ -30,6 +30,7 @@ CHECKS = {
     "C11": ("p_mp", "c11"),
     "C18": ("p_mp", "c18"),
     "C12": ("p_split", "c12"),
+    "C13": ("p_rewrites", "c13"),
 }
 
 
